@@ -602,8 +602,10 @@ package ggql
 //@   check frame {C06}
 //@   requires errsInc(err, 0, #alloc)
 //@   ensures[each-once] forall i int {err[i]} :: 0 <= i && i < len(err) && aserr(err[i]) != nil ==> prefixed(aserr(err[i]), loc)
+//@   ensures[list-kept] forall lo int, hi int {old(errsInc(err, lo, hi))} :: old(errsInc(err, lo, hi)) ==> errsInc(err, lo, hi)
 //@   assigns fresh, forall i in err: aserr(err[i]).Path
 //@   loop 0: invariant[bounds] 0 <= rangeindex+1 && rangeindex+1 <= len(err)
+//@           invariant[list-kept] forall lo int, hi int {old(errsInc(err, lo, hi))} :: old(errsInc(err, lo, hi)) ==> errsInc(err, lo, hi)
 //@           invariant[done] forall i int :: 0 <= i && i <= rangeindex && aserr(err[i]) != nil ==> prefixed(aserr(err[i]), loc)
 //@           invariant[todo] forall i int :: rangeindex < i && i < len(err) && aserr(err[i]) != nil ==> samePath(aserr(err[i]))
 //@           decreases len(err) - rangeindex
@@ -633,6 +635,7 @@ package ggql
 //@   requires !skippedSel(box(sel), vars)
 //@   ensures[not-applicable]{C08} sel.Condition != nil && sel.Condition != t ==> len(ea) == 0 && #res == old(#res) && (forall k string :: (has(result, k) <==> old(has(result, k))) && result[k] == old(result[k]))
 //@   assigns fresh, result, H_Field.ConType, H_Object.meta, held, #res
+//@   ensures[locks-balanced]{C12,C20} held == old(held)
 
 //@ func (*Root).resolveFragRef
 //@   requires ptrval(t) != 0
@@ -644,6 +647,7 @@ package ggql
 //@   requires !skippedSel(box(sel), vars)
 //@   ensures[not-applicable]{C08} sel.Fragment.Condition != nil && sel.Fragment.Condition != t ==> len(ea) == 0 && #res == old(#res) && (forall k string :: (has(result, k) <==> old(has(result, k))) && result[k] == old(result[k]))
 //@   assigns fresh, result, H_Field.ConType, H_Object.meta, held, #res
+//@   ensures[locks-balanced]{C12,C20} held == old(held)
 
 //@ func (*Root).resolveSels
 //@   requires ptrval(t) != 0
@@ -654,6 +658,7 @@ package ggql
 //@   requires root != nil && result != nil
 //@   requires t != nil
 //@   assigns fresh, result, H_Field.ConType, H_Object.meta, held, #res
+//@   ensures[locks-balanced]{C12,C20} held == old(held)
 //@   loop 0: invariant[bounds] 0 <= rangeindex+1 && rangeindex+1 <= len(sels)
 //@           invariant[errs] errsFresh(ea)
 //@           decreases len(sels) - rangeindex
@@ -793,7 +798,7 @@ package ggql
 //@ func (*Root).addError
 //@   abstract (not yet checked against the body)
 //@   requires f != nil && err != nil
-//@   ensures forall lo int {errsInc(ea, lo, old(#alloc))} :: errsInc(ea, lo, old(#alloc)) && lo <= old(#alloc) ==> errsInc(res, lo, #alloc)
+//@   ensures forall lo int, hi int {old(errsInc(ea, lo, hi))} :: old(errsInc(ea, lo, hi)) && lo <= hi && hi <= old(#alloc) ==> errsInc(res, lo, #alloc)
 //@   ensures len(res) > len(ea)
 //@   ensures fresh(res)
 //@   ensures #res == old(#res)
@@ -811,6 +816,7 @@ package ggql
 //@   results meta, err
 //@   ensures aserr(err) == nil
 //@   assigns fresh, t.meta, held
+//@   ensures[locks-balanced]{C12,C20} held == old(held)
 
 //@ func (*Root).resolve
 //@   props C01
@@ -823,6 +829,7 @@ package ggql
 //@   ensures[leaf-conforms]{C05} depth > 0 && !isnilv(obj) && !is(t, *List) && !is(t, *Object) && !is(t, *Schema) && !is(t, *Interface) && !is(t, *uuSchema) && !is(t, *NonNull) && !is(t, *Union) && is(t, OutCoercer) && len(ea) == 0 ==> conformsOut(result, t)
 //@   ensures[leaf-error-null]{C05} depth > 0 && !isnilv(obj) && !is(t, *List) && !is(t, *Object) && !is(t, *Schema) && !is(t, *Interface) && !is(t, *uuSchema) && !is(t, *NonNull) && !is(t, *Union) && len(ea) > 0 ==> result == nil
 //@   assigns fresh, H_Field.ConType, H_Object.meta, held, #res
+//@   ensures[locks-balanced]{C12,C20} held == old(held)
 //@   loop 0: invariant[bounds] 0 <= rangeindex+1 && rangeindex+1 <= len(tt.Members)
 //@           decreases len(tt.Members) - rangeindex
 
@@ -840,6 +847,7 @@ package ggql
 //@   ensures[iface-list-len]{C01} is(obj, []interface{}) ==> is(result, []interface{}) && len(as(result, []interface{})) == len(as(obj, []interface{}))
 //@   ensures[listresolver-len]{C01} is(obj, ListResolver) && as(obj, ListResolver).Len() >= 0 ==> is(result, []interface{}) && len(as(result, []interface{})) == as(obj, ListResolver).Len()
 //@   assigns fresh, H_Field.ConType, H_Object.meta, held, #res
+//@   ensures[locks-balanced]{C12,C20} held == old(held)
 //@   loop 0: invariant[bounds] 0 <= i && (i <= cnt || i == 0)
 //@           invariant[len] len(rlist) == i
 //@           invariant[errs] errsFresh(ea)
@@ -878,6 +886,7 @@ package ggql
 //@   ensures[typename]{C01} old(field.ConType) != nil && field.Name == "__typename" ==> has(result, fkey(field)) && result[fkey(field)] == box(t.Name()) && len(ea) == 0 && #res == old(#res)
 //@   ensures[undefined-field]{C10} old(field.ConType) != nil && !isMetaName(field.Name) && old(fdOf(t, field.Name)) == nil ==> len(ea) > 0 && #res == old(#res) && (has(result, fkey(field)) <==> old(has(result, fkey(field)))) && result[fkey(field)] == old(result[fkey(field)])
 //@   assigns fresh, result, H_Field.ConType, H_Object.meta, held, #res
+//@   ensures[locks-balanced]{C12,C20} held == old(held)
 
 //@ func (*Root).resolveFieldSels
 //@   requires ptrval(t) != 0
@@ -889,23 +898,22 @@ package ggql
 //@   ensures[fresh-map]{C01} is(result, map[string]interface{}) && fresh(as(result, map[string]interface{}))
 //@   ensures[errs-fresh]{C06} errsFresh(ea)
 //@   assigns fresh, H_Field.ConType, H_Object.meta, held, #res
+//@   ensures[locks-balanced]{C12,C20} held == old(held)
 
 //@ -- ------------------------------------------------------------------ ResolveExecutable (C01 operation choice, C04 variables, C07 shape)
 //@ fieldinv Executable.Ops: v != nil
 
-//@ func (*Root).subscribe
-//@   abstract (registry contracts: see C19)
-//@   requires root != nil && sub != nil
-//@   ensures #res == old(#res)
-//@   assigns fresh, root.subscriptions, H_Field.ConType, held
+//@ -- (*Root).subscribe: contract in verif_contracts_c19.go
 
 //@ func (*Root).ResolveExecutable
 //@   props C01
 //@   check panic {C03}
 //@   check frame {C11}
 //@   assigns fresh, root.subscriptions, H_Field.ConType, H_Object.meta, held, #res
+//@   ensures[locks-balanced]{C12,C20} held == old(held)
 //@   requires root != nil && exe != nil
 //@   requires root.schema != nil
+//@   requires[unlocked]{C20} !held(root.subLock)
 //@   ensures[unknown-name]{C01} opName != "" && old(exe.Ops[opName]) == nil ==> err != nil && result == nil && #res == old(#res)
 //@   ensures[ambiguous]{C01} opName == "" && old(exe.Ops[opName]) == nil && old(len(exe.Ops)) != 1 ==> err != nil && result == nil && #res == old(#res)
 //@   use dirsOfField(addrof(field))
